@@ -44,6 +44,31 @@ check("C13", "tool-sim", "fault_enumeration",
       "allocation faults cover project code only (codec libraries keep the real allocator).",
       "deterministic simulation: exhaustive single-fault enumeration over intercepted calls and allocations", "DESIGN.md 5/C13")
 
+check("C14", "tool-sim journal", "fault_enumeration",
+      "Every mutation of the output file of a packing run is journalled (create, pwrite, ftruncate, unlink); all prefixes of the journal "
+      "- the exact file contents after a kill between two output system calls, also with writes split by short pwrite - are materialised "
+      "and offered to rdsquashfs -d, sqfs2tar and the independent decoder. A state must be rejected by every reader or decode to exactly "
+      "the finished image's tree. The journal model is validated by real self-SIGKILL runs at sampled k (byte-identical file).",
+      "Crash model = process kill with the page cache surviving (what the property states). Exhaustive over crash points of each explored "
+      "run; the inputs are sampled by the seeded generator.",
+      "deterministic simulation: exhaustive crash-point enumeration over a recorded write journal", "DESIGN.md 5/C14")
+
+check("C02", "tool-sim", "exploration",
+      "The image of one input is produced by the serial reference pool and under seeded (-j, -Q, simulated CPU count, schedule policy, "
+      "spurious wake-ups, stalled workers, TZ/locale/umask/absolute-vs-relative output path, simulated clock, allocator junk byte) "
+      "variants; sha256 must be identical everywhere. Differences are re-run twice (gate), replayed from the recorded decision "
+      "sequence and shrunk (fewer threads, smaller backlog, neutral environment, shorter decision list).",
+      "Threads are serialised by the simulator: data races between synchronisation points are invisible; schedules and inputs are sampled.",
+      "deterministic simulation: seeded schedule/configuration search vs serial reference implementation", "DESIGN.md 5/C02")
+
+check("C11", "tool-sim", "exploration",
+      "The readdir seam sorts the real entries of each directory and applies a seeded permutation (identity, reverse, random); "
+      "gensquashfs --pack-dir and glob lines over real tmpfs trees (hard links, devices, xattrs) must yield the same image for every "
+      "permutation. One known finding (first-seen-wins hard link detection) is listed in known_findings.txt and keyed by experiment "
+      "(dependence disappears with -H).",
+      "Permutations and trees are sampled; the host's own order is removed by sorting before permuting.",
+      "deterministic simulation: seeded permutation of directory enumeration order", "DESIGN.md 5/C11")
+
 PENDING = ["C01","C02","C03","C04","C05","C06","C07","C08","C10","C11","C12","C13","C14","C15","C19"]
 NA_REASONS = {
  "C16": "pure relation between two text transducers (describe printer, pack-file tokenizer); no schedule, clock, fault, crash point or history in the statement - deciding it is input enumeration, which deterministic simulation does not do (DESIGN.md section 0)",
@@ -67,7 +92,7 @@ def main():
             "add_only": True,
         },
         "engines": [
-            {"name": "tool-sim", "path": "simos/ + py/pipelines.py", "serves_properties": ["C12", "C13"], "kind_free_text": "each tool's real sources linked with simos under --wrap; one process per simulated run"},
+            {"name": "tool-sim", "path": "simos/ + py/pipelines.py", "serves_properties": ["C02", "C11", "C12", "C13", "C14"], "kind_free_text": "each tool's real sources linked with simos under --wrap; one process per simulated run"},
             {"name": "pool-sim", "path": "scn/pool.c", "serves_properties": ["C09"], "kind_free_text": "real threadpool.c under the simos scheduler, many runs per process"},
         ],
         "checks": [CHECKS[k] for k in sorted(CHECKS)],
